@@ -341,6 +341,13 @@ func (in *Interp) load(st *State, a Val) Val {
 		if path[i] == '.' || path[i] == '[' {
 			pre := Ptr{p.Base, path[:i]}.Key()
 			if v, ok := st.mem[pre]; ok {
+				if sv, isS := v.(Sym); isS && sv.Op == "struct" {
+					for _, fa := range sv.Args {
+						if fs, ok := fa.(Sym); ok && fs.Name == path[i:] {
+							return fs.Args[0]
+						}
+					}
+				}
 				return Sym{Op: "sel", Name: path[i:], Args: []Val{v}}
 			}
 		}
